@@ -1000,6 +1000,7 @@ void ReaderMgr::reset()
 {
     // Reset all of the flags
     fThrowEOE = false;
+    fXMLVersion = XMLReader::XMLV1_0;
 
     // Delete the current reader and flush the reader stack
     delete fCurReaderData;
